@@ -2,6 +2,7 @@ package main
 
 import (
 	"go/ast"
+	"go/token"
 	"strings"
 )
 
@@ -23,7 +24,7 @@ var c11Passes = []string{"ShiftExpired", "ShiftMatching", "SelectExpiredForPatch
 
 func c11Run(fs *Facts) {
 	names := []string{"selectUnderLock", "checksExpNonZero", "rechecksIndexedLeg", "reindexChecksExists", "patchChecksExists",
-		"emptyCandMeansAll", "guardUnderBeaconLock", "beaconUnderGuard"}
+		"emptyCandMeansAll", "guardUnderBeaconLock", "beaconUnderGuard", "shiftDeleteRevalidates"}
 	unknownAll := func(where string) {
 		for _, n := range names {
 			if _, ok := fs.Lean[n]; !ok {
@@ -96,10 +97,43 @@ func c11Run(fs *Facts) {
 				expRes, expWhere = No, w
 			}
 		}
-		if n == "ShiftExpired" || n == "ShiftMatching" {
-			for _, c := range b.CallsSuffix(fn, ".StartTreasureGuard") {
-				if len(locks) == 1 && c.Pos() > locks[0].Pos() {
-					gub, gubWhere = Yes, c11Beacon+":"+itoa(b.Line(c))
+	}
+	// guardUnderBeaconLock: any beacon method that WAITS for a record guard (StartTreasureGuard with a first argument
+	// other than the literal false) between taking b.mu and releasing it
+	for _, d := range b.AST.Decls {
+		fn, ok := d.(*ast.FuncDecl)
+		if !ok || fn.Body == nil || fn.Recv == nil {
+			continue
+		}
+		deferredPos := map[token.Pos]bool{}
+		ast.Inspect(fn, func(x ast.Node) bool {
+			if ds, ok := x.(*ast.DeferStmt); ok {
+				deferredPos[ds.Call.Pos()] = true
+			}
+			return true
+		})
+		var unlocks []token.Pos
+		for _, u := range b.Calls(fn, "b.mu.Unlock", "b.mu.RUnlock") {
+			if !deferredPos[u.Pos()] {
+				unlocks = append(unlocks, u.Pos())
+			}
+		}
+		for _, c := range b.CallsSuffix(fn, ".StartTreasureGuard") {
+			if len(c.Args) > 0 && b.Str(c.Args[0]) == "false" {
+				continue
+			}
+			for _, l := range b.Calls(fn, "b.mu.Lock", "b.mu.RLock") {
+				if l.Pos() > c.Pos() {
+					continue
+				}
+				released := false
+				for _, u := range unlocks {
+					if u > l.Pos() && u < c.Pos() {
+						released = true
+					}
+				}
+				if !released {
+					gub, gubWhere = Yes, c11Beacon+":"+itoa(b.Line(c))+" ("+fn.Name.Name+")"
 				}
 			}
 		}
@@ -239,7 +273,7 @@ func c11Run(fs *Facts) {
 		unknownAll(c11Swamp)
 		return
 	}
-	dh := sw.Func("swamp", "deleteHandler")
+	dh := sw.Func("swamp", ccDeleteHandlerName(sw))
 	if dh == nil {
 		unknownAll(c11Swamp)
 		return
@@ -264,5 +298,74 @@ func c11Run(fs *Facts) {
 		bug = Unknown
 	}
 	fs.Tri("beaconUnderGuard", bug, where)
+
+	// ---- shiftDeleteRevalidates: the loop over the selected records in CloneAndDelete{Expired,Matching}Treasures
+	// goes through deleteHandlerIf with a predicate (re-checked under the record guard before anything is removed)
+	// and hands out the copies that call returns, not the ones of the selection pass
+	rv, rvWhere := Yes, c11Swamp
+	for _, n := range []string{"CloneAndDeleteExpiredTreasures", "CloneAndDeleteMatchingTreasures"} {
+		fn := sw.Func("swamp", n)
+		if fn == nil {
+			rv, rvWhere = Unknown, c11Swamp+" ("+n+" not found)"
+			break
+		}
+		w := c11Swamp + ":" + itoa(sw.Line(fn)) + " (" + n + ")"
+		var loop *ast.RangeStmt
+		ast.Inspect(fn, func(x ast.Node) bool {
+			if r, ok := x.(*ast.RangeStmt); ok && sw.Str(r.X) == "shiftedTreasures" {
+				loop = r
+			}
+			return true
+		})
+		if loop == nil {
+			rv, rvWhere = Unknown, w
+			break
+		}
+		plain := sw.Calls(loop, "s.deleteHandler")
+		checked := sw.Calls(loop, "s.deleteHandlerIf")
+		okShape := len(plain) == 0 && len(checked) == 1 && len(checked[0].Args) == 3 && sw.Str(checked[0].Args[2]) != "nil"
+		// the function must not return the selection pass's copies
+		returnsSel := false
+		ast.Inspect(fn, func(x ast.Node) bool {
+			if r, ok := x.(*ast.ReturnStmt); ok && len(r.Results) > 0 && sw.Str(r.Results[0]) == "shiftedTreasures" {
+				returnsSel = true
+			}
+			return true
+		})
+		if !okShape || returnsSel {
+			rv, rvWhere = No, w
+			break
+		}
+		rvWhere = w
+	}
+	if rv == Yes {
+		// deleteHandlerIf itself: the predicate is consulted after the guard is taken and before the key index is touched
+		h := sw.Func("swamp", "deleteHandlerIf")
+		if h == nil || h.Type.Params == nil || len(h.Type.Params.List) != 3 || len(h.Type.Params.List[2].Names) != 1 {
+			rv, rvWhere = Unknown, c11Swamp+" (deleteHandlerIf)"
+		} else {
+			pn := h.Type.Params.List[2].Names[0].Name
+			gs := sw.CallsSuffix(h, ".StartTreasureGuard")
+			ds := sw.Calls(h, "s.beaconKey.Delete")
+			ps := sw.Calls(h, pn)
+			if len(gs) != 1 || len(ds) != 1 || len(ps) != 1 {
+				rv, rvWhere = Unknown, c11Swamp+":"+itoa(sw.Line(h))
+			} else if !(ps[0].Pos() > gs[0].Pos() && ps[0].Pos() < ds[0].Pos()) {
+				rv, rvWhere = No, c11Swamp+":"+itoa(sw.Line(ps[0]))
+			}
+		}
+	}
+	fs.Tri("shiftDeleteRevalidates", rv, rvWhere)
 	unknownAll(c11Beacon)
+}
+
+// ccDeleteHandlerName: the function that holds deleteHandler's body (deleteHandler itself, or deleteHandlerIf when
+// deleteHandler is the one-line wrapper around it)
+func ccDeleteHandlerName(sw *File) string {
+	if h := sw.Func("swamp", "deleteHandlerIf"); h != nil {
+		if d := sw.Func("swamp", "deleteHandler"); d != nil && len(sw.Calls(d, "s.deleteHandlerIf")) == 1 && len(d.Body.List) <= 2 {
+			return "deleteHandlerIf"
+		}
+	}
+	return "deleteHandler"
 }
